@@ -162,6 +162,9 @@ def _gen_case(rng, tier):
         case['long_ext'] = [rng.randrange(0, min(n_chunks, 4)), B + rng.choice([1, 7, 300, 5000])]
     if case['framing'] == 'chunked':
         case['hex'] = rng.choice(['lower', 'lower', 'upper', 'upper', 'zeros', 'upper_zeros'])
+    if rng.random() < 0.08:
+        # another application of the same process answers request errors in its own (non-4xx) way
+        case['foreign_app'] = True
     return case
 
 
@@ -210,7 +213,8 @@ def _run_case(case):
         cl = case['cl_too']
         res['probes']['chunked_with_content_length'] += 1
     o = body_request(wire, case['sched'], B=B, M=M, cl=cl, chunked=chunked, ctype=ctype, tempmode=case['temp'],
-                     touch=touch, endless=endless_pat, max_calls=max_calls, retry=(3 if case.get('retry') else 0))
+                     touch=touch, endless=endless_pat, max_calls=max_calls, retry=(3 if case.get('retry') else 0),
+                     foreign_app=bool(case.get('foreign_app')))
     if 'retry_body' in o.seen and (endless or (M is not None and len(body) > M)):
         violation(res, 'C13:refused-body-readable-on-retry',
                   f'a body refused for its size was handed out ({len(o.seen["retry_body"])} bytes) on the second access')
